@@ -64,13 +64,13 @@ class YGen:
 
     def mapping(self, depth):
         rng = self.rng
+        slots = list(rng.sample(KEYS, rng.randint(0, 4)))
+        if depth > 0:
+            for _ in range(rng.choice([0, 0, 1, 1, 2])):
+                slots.insert(rng.randint(0, len(slots)), "<<")
         ents = []
-        keys = rng.sample(KEYS, rng.randint(0, 4))
-        for k in keys:
-            ents.append(f"{k}: {self.node(depth - 1)}")
-        for _ in range(rng.choice([0, 0, 1, 1, 2])):
-            if depth > 0:
-                ents.insert(rng.randint(0, len(ents)), f"<<: {self.merge_value(depth)}")
+        for k in slots:     # generated in textual order: an alias can only name an anchor that is already complete
+            ents.append(f"<<: {self.merge_value(depth)}" if k == "<<" else f"{k}: {self.node(depth - 1)}")
         return "{" + ", ".join(ents) + "}"
 
 
@@ -242,6 +242,66 @@ def evaluate(rep, cases):
     return bad
 
 
+# ---------------------------------------------------------------- YAML stream syntax
+# The same logical stream in the legal spellings of a YAML document boundary.  bkl's reader must see
+# the documents an independent YAML parser sees (C04: the result depends on the content only).
+
+def ystream_case(rng):
+    import props.c04 as c04
+    docs = []
+    for _ in range(rng.randint(1, 3)):
+        d = {rng.choice(KEYS): c04.tree(rng, 1) for _ in range(rng.randint(1, 3))}
+        docs.append(d)
+    out = ""
+    if rng.random() < 0.3:
+        out += rng.choice(["---\n", "--- \n", "--- # start\n", "# leading comment\n---\n"])
+    for i, d in enumerate(docs):
+        if i > 0:
+            how = rng.choice(["line", "line", "space", "comment", "inline", "enddoc", "tab"])
+            if how == "inline":
+                out += "--- " + formats.dump_yaml([d], flow=True)
+                continue
+            out += {"line": "---\n", "space": "--- \n", "comment": "---   # next document\n", "enddoc": "...\n---\n", "tab": "---\t\n"}[how]
+        out += formats.dump_yaml([d], flow=rng.choice([False, None]))
+    if rng.random() < 0.2:
+        out += "...\n"
+    return {"format": "yaml", "text": out, "docs": docs}
+
+
+def evaluate_streams(rep, cases):
+    ops = [{"op": "decode", "id": i, "format": c["format"], "text": base64.b64encode(c["text"].encode()).decode()} for i, c in enumerate(cases)]
+    go = run_go(ops)
+    from wire import from_wire
+    bad = 0
+    for i, c in enumerate(cases):
+        g = go.get(i) or {}
+        rep.case(["ystream", c["text"]], len(c["docs"]) > 1, sample={"yaml_stream": c["text"]} if i < 2 else None)
+        rep.count("ystream:docs%d" % len(c["docs"]))
+        try:
+            indep = [x for x in formats.yaml_load_all(c["text"]) if x is not None]
+        except Exception as e:
+            rep.count("ystream:independent-parser-rejects")
+            continue
+        if not (len(indep) == len(c["docs"]) and all(formats.same(a, b) for a, b in zip(indep, c["docs"]))):
+            rep.count("ystream:writer-bug")
+            continue
+        d = None
+        if "docs" not in g:
+            d = f"bkl rejects a YAML stream that an independent parser reads: {g.get('err')} {g.get('msg', '')[:100]}"
+        else:
+            got = [x for x in (from_wire(w) for w in g["docs"]) if x is not None]
+            if not (len(got) == len(indep) and all(formats.same(a, b) for a, b in zip(got, indep))):
+                d = f"bkl reads {len(got)} document(s) where the stream holds {len(indep)} (documents dropped or changed)"
+        if d:
+            bad += 1
+            if len(rep.violations) < 5:
+                rep.disagreements_checked += 1
+                rep.violation(f"yaml stream syntax: {d}", {"case": {"ystream": c}, "impl": g})
+    return bad
+
+
 def run(rep, n, seed_offset=4242):
+    rng2 = random.Random(rep.seed + seed_offset + 1)
+    evaluate_streams(rep, [ystream_case(rng2) for _ in range(max(50, n // 6))])
     rng = random.Random(rep.seed + seed_offset)
     return evaluate(rep, [gen_case(rng) for _ in range(n)])
